@@ -1,4 +1,8 @@
-//! MODEL of `jiff` 0.2.15 — exactly the surface `paseto-json` uses (`jiff::Timestamp`), nothing else.
+//! MODEL of `jiff` 0.2.15 — the surface `paseto-json` uses (`jiff::Timestamp`, `+`/`-` with `std::time::Duration`, `now`,
+//! ordering, serde) plus what a maintainer of that file could plausibly reach for next: `jiff::SignedDuration`, the
+//! checked / saturating arithmetic, the differences and the second / nanosecond constructors and accessors of `Timestamp`.
+//! Not modelled (a change using them makes the scratch build fail = "undecided", never a wrong verdict): `Span`/`ToSpan`,
+//! `Zoned`, civil types, time zones, parsing/printing (`FromStr`, `Display`, `strftime`), rounding, `SystemTime` conversions.
 //!
 //! ASSUMED CONTRACT of the real crate (this is what the verification of paseto-json's validators and serde glue rests on):
 //!   * a `Timestamp` is an instant with nanosecond resolution inside jiff's documented range
@@ -8,27 +12,53 @@
 //!     `-377705023201_000_000_000 ..= 253402207200_999_999_999`;
 //!   * `PartialEq/Eq/PartialOrd/Ord` order timestamps chronologically (jiff derives them on `(second, nanosecond)`, both of
 //!     the same sign, which is the order of the nanosecond count);
-//!   * `Timestamp + core::time::Duration` / `Timestamp - core::time::Duration` are exact and PANIC when the exact result is
-//!     outside the range (jiff/src/timestamp.rs `impl Add<UnsignedDuration>`: `self.checked_add(rhs).expect("adding unsigned
-//!     duration to timestamp overflowed")`; `checked_add` fails when the duration does not fit a `SignedDuration`, when the
-//!     96-bit sum overflows and when `Timestamp::from_duration` rejects the sum — all of which are "exact result out of
-//!     range"); nothing saturates or wraps;
+//!   * `Timestamp + d` / `Timestamp - d` for `d: core::time::Duration` or `d: SignedDuration` are exact and PANIC when the
+//!     exact result is outside the range (jiff/src/timestamp.rs `impl Add<UnsignedDuration>`: `self.checked_add(rhs)
+//!     .expect("adding unsigned duration to timestamp overflowed")`; `checked_add` fails when the duration does not fit a
+//!     `SignedDuration`, when the 96-bit sum overflows and when `Timestamp::from_duration` rejects the sum — all of which
+//!     are "exact result out of range"); `checked_add/checked_sub` return `Err` exactly there; `saturating_add/
+//!     saturating_sub` return `Ok(clamp(exact result, MIN, MAX))` (jiff: `Timestamp::MIN` when the duration is negative,
+//!     else `Timestamp::MAX`; every conversion failure on the way concerns durations of more than 2^63 s, for which the
+//!     clamp gives the same answer); nothing wraps;
+//!   * `duration_since/duration_until` are the exact differences; `as_second/as_millisecond/as_microsecond` truncate towards
+//!     zero, `subsec_*` carry the sign of the timestamp (jiff keeps `second` and `nanosecond` of equal sign);
+//!     `Timestamp::new(second, nanosecond)` accepts `second` in range and `|nanosecond| <= 999_999_999` (mixed signs are
+//!     normalised, i.e. the value is `second * 10^9 + nanosecond`) except `second == MIN second && nanosecond < 0`;
+//!   * `SignedDuration` is a pair `(secs: i64, nanos: i32)` of equal sign with `|nanos| <= 999_999_999`; constructors,
+//!     accessors and checked arithmetic are transcribed from jiff/src/signed_duration.rs (same intermediate overflow points);
 //!   * `Timestamp::now()` returns some timestamp of the range (under Kani: an arbitrary one);
 //!   * `Serialize`/`Deserialize` are inverse to each other on the whole range and `Deserialize` yields nothing outside it.
 //!     The real crate's serde form is an RFC 3339 string (`collect_str` / `deserialize_str` + `DEFAULT_DATETIME_PARSER`).
 //!     That text layer is THIRD-PARTY AND ASSUMED: the model uses an OPAQUE form, one distinctive serde call
 //!     (`serialize_i128(nanoseconds)` / `deserialize_i128`), so that a harness can recognise "the Timestamp's own serde form"
 //!     without committing to any text.
+//! The arithmetic part of this contract is compared with the real crate on boundary and random values by the native
+//! differential test units/u5_json/jiffdiff (see units/u5_json/NOTES.md).
 //!
-//! Model state: one `i128` nanosecond count with the range invariant (no niche-bearing fields, no loops, no allocation, no
-//! error values with drop glue) plus one ghost static, the clock value a harness may fix. `model_from_nanos`, `model_nanos`,
-//! `model_set_clock`, `model_duration_nanos` are for harnesses only.
+//! Model state: `Timestamp` = one `i128` nanosecond count with the range invariant; `SignedDuration` = `(i64, i32)`;
+//! `Error` = a unit-like Copy struct (no niche-bearing fields, no loops, no allocation, no error values with drop glue);
+//! ghost statics: the clock value a harness may fix and two one-entry memos of Duration -> nanoseconds products.
+//! `model_from_nanos`, `model_nanos`, `model_set_clock`, `model_duration_nanos` are for harnesses only.
+
+use core::time::Duration as UnsignedDuration;
 
 /// Smallest / largest second of a `Timestamp` (documented range of jiff 0.2).
 pub const MODEL_MIN_SECOND: i64 = -377705023201;
 pub const MODEL_MAX_SECOND: i64 = 253402207200;
 pub const MODEL_MIN_NANOS: i128 = MODEL_MIN_SECOND as i128 * 1_000_000_000;
 pub const MODEL_MAX_NANOS: i128 = MODEL_MAX_SECOND as i128 * 1_000_000_000 + 999_999_999;
+const NANOS_PER_SEC: i32 = 1_000_000_000;
+
+/// jiff::Error stand-in: unit-like, Copy, no drop glue (the real one is an `Arc` chain whose drop glue CBMC unwinds forever)
+#[derive(Clone, Copy, Debug, PartialEq, Eq)]
+pub struct Error(());
+impl core::fmt::Display for Error {
+    fn fmt(&self, f: &mut core::fmt::Formatter<'_>) -> core::fmt::Result {
+        f.write_str("jiff model: value out of range")
+    }
+}
+impl std::error::Error for Error {}
+const ERR: Error = Error(());
 
 // ghost clock: distinctive "unset" value (outside the range, not a constant of any program)
 const CLOCK_UNSET: i128 = -0x5eed_c10c_0000_0000_0000_0000_0000_0001;
@@ -38,9 +68,295 @@ pub fn model_set_clock(t: Timestamp) {
     unsafe { MODEL_CLOCK = t.ns }
 }
 
+// ---------------------------------------------------------------------------------------------------------------------
+// Duration -> nanoseconds. One-entry memos of the last conversion, semantically invisible (a pure function is cached): they
+// exist because CBMC otherwise builds one 128-bit multiplier per `+`/`-` and per harness oracle and the SAT solver then has to
+// prove identical multipliers equivalent (measured: 105-500 s per query). With the memo every use of the same Duration shares
+// ONE product. Distinctive initial keys (never equal to a program constant).
+static mut MEMO: (u64, u32, i128) = (0x5eed_0000_0000_0001, 0x7fff_fff1, 0);
+static mut MEMO_S: (i64, i32, i128) = (0x5eed_0000_0000_0002, 0x7fff_fff2, 0);
+
+/// harness helper: exact nanosecond count of a std Duration, `secs * 10^9 + subsec_nanos` (what the model's `+`/`-` use).
+/// Checked against independent arithmetic by harness `oracle_duration_nanos_exact` of unit u5_validators.
+pub fn model_duration_nanos(d: UnsignedDuration) -> i128 {
+    duration_nanos(d)
+}
+
+fn duration_nanos(d: UnsignedDuration) -> i128 {
+    let (s, n) = (d.as_secs(), d.subsec_nanos());
+    unsafe {
+        if MEMO.0 == s && MEMO.1 == n {
+            return MEMO.2;
+        }
+        // u64::MAX * 10^9 + 999_999_999 < 2^94: exact in i128. `wrapping_mul` only to keep Kani from emitting an i128
+        // multiplication-overflow check (a 256-bit multiplier for CBMC); it cannot wrap.
+        let v = (s as i128).wrapping_mul(1_000_000_000) + n as i128;
+        MEMO = (s, n, v);
+        v
+    }
+}
+
+fn signed_nanos(d: SignedDuration) -> i128 {
+    unsafe {
+        if MEMO_S.0 == d.secs && MEMO_S.1 == d.nanos {
+            return MEMO_S.2;
+        }
+        // |i64::MIN| * 10^9 + 999_999_999 < 2^93: exact in i128
+        let v = (d.secs as i128).wrapping_mul(1_000_000_000) + d.nanos as i128;
+        MEMO_S = (d.secs, d.nanos, v);
+        v
+    }
+}
+
+// ---------------------------------------------------------------------------------------------------------------------
+/// jiff::SignedDuration: `secs` and `nanos` have the same sign (or one is zero), `|nanos| <= 999_999_999`.
+/// Field order matters: the derived order (secs, then nanos) is the chronological one, as in jiff.
+#[derive(Clone, Copy, Debug, Default, PartialEq, Eq, PartialOrd, Ord, Hash)]
+pub struct SignedDuration {
+    secs: i64,
+    nanos: i32,
+}
+
+impl SignedDuration {
+    pub const ZERO: SignedDuration = SignedDuration { secs: 0, nanos: 0 };
+    pub const MIN: SignedDuration = SignedDuration { secs: i64::MIN, nanos: -(NANOS_PER_SEC - 1) };
+    pub const MAX: SignedDuration = SignedDuration { secs: i64::MAX, nanos: NANOS_PER_SEC - 1 };
+
+    /// transcribed from jiff: balances `|nanos| >= 1s` into seconds (panics if that overflows), then makes the signs agree
+    pub const fn new(mut secs: i64, mut nanos: i32) -> SignedDuration {
+        if !(-NANOS_PER_SEC < nanos && nanos < NANOS_PER_SEC) {
+            let addsecs = nanos / NANOS_PER_SEC;
+            secs = match secs.checked_add(addsecs as i64) {
+                Some(secs) => secs,
+                None => panic!("[model] jiff contract boundary: nanoseconds overflowed seconds in SignedDuration::new"),
+            };
+            nanos = nanos % NANOS_PER_SEC;
+        }
+        if nanos == 0 || secs == 0 || secs.signum() == (nanos.signum() as i64) {
+            return SignedDuration { secs, nanos };
+        }
+        if secs < 0 {
+            secs += 1;
+            nanos -= NANOS_PER_SEC;
+        } else {
+            secs -= 1;
+            nanos += NANOS_PER_SEC;
+        }
+        SignedDuration { secs, nanos }
+    }
+    pub const fn from_secs(secs: i64) -> SignedDuration {
+        SignedDuration { secs, nanos: 0 }
+    }
+    pub const fn from_millis(millis: i64) -> SignedDuration {
+        SignedDuration { secs: millis / 1_000, nanos: (millis % 1_000) as i32 * 1_000_000 }
+    }
+    pub const fn from_micros(micros: i64) -> SignedDuration {
+        SignedDuration { secs: micros / 1_000_000, nanos: (micros % 1_000_000) as i32 * 1_000 }
+    }
+    pub const fn from_nanos(nanos: i64) -> SignedDuration {
+        SignedDuration { secs: nanos / 1_000_000_000, nanos: (nanos % 1_000_000_000) as i32 }
+    }
+    pub const fn from_mins(minutes: i64) -> SignedDuration {
+        if minutes < i64::MIN / 60 || minutes > i64::MAX / 60 {
+            panic!("[model] jiff contract boundary: minutes overflowed SignedDuration seconds")
+        }
+        SignedDuration::from_secs(minutes * 60)
+    }
+    pub const fn from_hours(hours: i64) -> SignedDuration {
+        if hours < i64::MIN / 3_600 || hours > i64::MAX / 3_600 {
+            panic!("[model] jiff contract boundary: hours overflowed SignedDuration seconds")
+        }
+        SignedDuration::from_secs(hours * 3_600)
+    }
+    pub const fn is_zero(&self) -> bool {
+        self.secs == 0 && self.nanos == 0
+    }
+    pub const fn as_secs(&self) -> i64 {
+        self.secs
+    }
+    pub const fn subsec_nanos(&self) -> i32 {
+        self.nanos
+    }
+    pub const fn subsec_micros(&self) -> i32 {
+        self.nanos / 1_000
+    }
+    pub const fn subsec_millis(&self) -> i32 {
+        self.nanos / 1_000_000
+    }
+    pub const fn as_millis(&self) -> i128 {
+        (self.secs as i128).wrapping_mul(1_000) + (self.nanos / 1_000_000) as i128
+    }
+    pub const fn as_micros(&self) -> i128 {
+        (self.secs as i128).wrapping_mul(1_000_000) + (self.nanos / 1_000) as i128
+    }
+    pub fn as_nanos(&self) -> i128 {
+        signed_nanos(*self)
+    }
+    pub const fn signum(self) -> i8 {
+        if self.secs > 0 || self.nanos > 0 {
+            1
+        } else if self.secs < 0 || self.nanos < 0 {
+            -1
+        } else {
+            0
+        }
+    }
+    pub const fn is_positive(&self) -> bool {
+        self.secs > 0 || self.nanos > 0
+    }
+    pub const fn is_negative(&self) -> bool {
+        self.secs < 0 || self.nanos < 0
+    }
+    pub const fn checked_neg(self) -> Option<SignedDuration> {
+        match self.secs.checked_neg() {
+            Some(secs) => Some(SignedDuration { secs, nanos: -self.nanos }),
+            None => None,
+        }
+    }
+    pub const fn abs(self) -> SignedDuration {
+        // like jiff: i64::abs overflows (panics in debug builds) for secs == i64::MIN
+        SignedDuration { secs: self.secs.abs(), nanos: self.nanos.abs() }
+    }
+    pub const fn unsigned_abs(self) -> UnsignedDuration {
+        UnsignedDuration::new(self.secs.unsigned_abs(), self.nanos.unsigned_abs())
+    }
+    /// transcribed from jiff (same intermediate overflow points)
+    pub const fn checked_add(self, rhs: SignedDuration) -> Option<SignedDuration> {
+        let mut secs = match self.secs.checked_add(rhs.secs) {
+            Some(s) => s,
+            None => return None,
+        };
+        let mut nanos = self.nanos + rhs.nanos;
+        if nanos != 0 {
+            if nanos >= NANOS_PER_SEC {
+                nanos -= NANOS_PER_SEC;
+                secs = match secs.checked_add(1) {
+                    None => return None,
+                    Some(secs) => secs,
+                };
+            } else if nanos <= -NANOS_PER_SEC {
+                nanos += NANOS_PER_SEC;
+                secs = match secs.checked_sub(1) {
+                    None => return None,
+                    Some(secs) => secs,
+                };
+            }
+            if secs != 0 && nanos != 0 && secs.signum() != (nanos.signum() as i64) {
+                if secs < 0 {
+                    secs += 1;
+                    nanos -= NANOS_PER_SEC;
+                } else {
+                    secs -= 1;
+                    nanos += NANOS_PER_SEC;
+                }
+            }
+        }
+        Some(SignedDuration { secs, nanos })
+    }
+    pub const fn checked_sub(self, rhs: SignedDuration) -> Option<SignedDuration> {
+        match rhs.checked_neg() {
+            Some(rhs) => self.checked_add(rhs),
+            None => None,
+        }
+    }
+    /// a nanosecond count that is known to fit (differences of timestamps, timestamps themselves)
+    fn from_small_nanos(ns: i128) -> SignedDuration {
+        SignedDuration { secs: (ns / 1_000_000_000) as i64, nanos: (ns % 1_000_000_000) as i32 }
+    }
+}
+impl core::ops::Neg for SignedDuration {
+    type Output = SignedDuration;
+    fn neg(self) -> SignedDuration {
+        match self.checked_neg() {
+            Some(d) => d,
+            None => panic!("[model] jiff contract boundary: overflow when negating signed duration"),
+        }
+    }
+}
+impl core::ops::Add for SignedDuration {
+    type Output = SignedDuration;
+    fn add(self, rhs: SignedDuration) -> SignedDuration {
+        match self.checked_add(rhs) {
+            Some(d) => d,
+            None => panic!("[model] jiff contract boundary: overflow when adding signed durations"),
+        }
+    }
+}
+impl core::ops::Sub for SignedDuration {
+    type Output = SignedDuration;
+    fn sub(self, rhs: SignedDuration) -> SignedDuration {
+        match self.checked_sub(rhs) {
+            Some(d) => d,
+            None => panic!("[model] jiff contract boundary: overflow when subtracting signed durations"),
+        }
+    }
+}
+impl core::ops::AddAssign for SignedDuration {
+    fn add_assign(&mut self, rhs: SignedDuration) {
+        *self = *self + rhs
+    }
+}
+impl core::ops::SubAssign for SignedDuration {
+    fn sub_assign(&mut self, rhs: SignedDuration) {
+        *self = *self - rhs
+    }
+}
+impl TryFrom<UnsignedDuration> for SignedDuration {
+    type Error = Error;
+    fn try_from(d: UnsignedDuration) -> Result<SignedDuration, Error> {
+        if d.as_secs() > i64::MAX as u64 {
+            return Err(ERR);
+        }
+        Ok(SignedDuration { secs: d.as_secs() as i64, nanos: d.subsec_nanos() as i32 })
+    }
+}
+impl TryFrom<SignedDuration> for UnsignedDuration {
+    type Error = Error;
+    fn try_from(sd: SignedDuration) -> Result<UnsignedDuration, Error> {
+        if sd.is_negative() {
+            return Err(ERR);
+        }
+        Ok(UnsignedDuration::new(sd.secs as u64, sd.nanos as u32))
+    }
+}
+
+/// jiff::TimestampArithmetic: what `checked_add/checked_sub/saturating_add/saturating_sub` accept (`Span` is not modelled).
+/// Holds the exact signed nanosecond count of the duration.
+#[derive(Clone, Copy, Debug)]
+pub struct TimestampArithmetic {
+    ns: i128,
+}
+impl From<SignedDuration> for TimestampArithmetic {
+    fn from(d: SignedDuration) -> TimestampArithmetic {
+        TimestampArithmetic { ns: signed_nanos(d) }
+    }
+}
+impl From<UnsignedDuration> for TimestampArithmetic {
+    fn from(d: UnsignedDuration) -> TimestampArithmetic {
+        TimestampArithmetic { ns: duration_nanos(d) }
+    }
+}
+impl<'a> From<&'a SignedDuration> for TimestampArithmetic {
+    fn from(d: &'a SignedDuration) -> TimestampArithmetic {
+        TimestampArithmetic::from(*d)
+    }
+}
+impl<'a> From<&'a UnsignedDuration> for TimestampArithmetic {
+    fn from(d: &'a UnsignedDuration) -> TimestampArithmetic {
+        TimestampArithmetic::from(*d)
+    }
+}
+
+// ---------------------------------------------------------------------------------------------------------------------
 #[derive(Clone, Copy, Debug, Hash)]
 pub struct Timestamp {
     ns: i128,
+}
+
+impl Default for Timestamp {
+    fn default() -> Timestamp {
+        Timestamp::UNIX_EPOCH
+    }
 }
 
 impl Timestamp {
@@ -62,8 +378,11 @@ impl Timestamp {
         self.ns
     }
 
-    pub fn as_nanosecond(self) -> i128 {
-        self.ns
+    fn from_nanos_result(ns: i128) -> Result<Timestamp, Error> {
+        match Timestamp::model_from_nanos(ns) {
+            Some(t) => Ok(t),
+            None => Err(ERR),
+        }
     }
 
     /// "some timestamp of the range": under Kani an arbitrary one, or the one a harness fixed with `model_set_clock`
@@ -86,31 +405,118 @@ impl Timestamp {
         };
         Timestamp::model_from_nanos(ns).expect("system time is valid")
     }
-}
 
-// One-entry memo of the last Duration -> nanoseconds conversion. Semantically invisible (a pure function is cached); it
-// exists because CBMC otherwise builds one 128-bit multiplier per `+`/`-` and per harness oracle and the SAT solver then
-// has to prove identical multipliers equivalent (measured: 105-500 s per query). With the memo every use of the same
-// Duration shares ONE product. Distinctive initial key (never equal to a program constant).
-static mut MEMO: (u64, u32, i128) = (0x5eed_0000_0000_0001, 0x7fff_fff1, 0);
-
-/// harness helper: exact nanosecond count of a std Duration, `secs * 10^9 + subsec_nanos` (what the model's `+`/`-` use).
-/// Checked against independent arithmetic by harness `oracle_duration_nanos_exact` of unit u5_validators.
-pub fn model_duration_nanos(d: core::time::Duration) -> i128 {
-    duration_nanos(d)
-}
-
-fn duration_nanos(d: core::time::Duration) -> i128 {
-    let (s, n) = (d.as_secs(), d.subsec_nanos());
-    unsafe {
-        if MEMO.0 == s && MEMO.1 == n {
-            return MEMO.2;
+    // ---- constructors
+    pub fn new(second: i64, nanosecond: i32) -> Result<Timestamp, Error> {
+        if second < MODEL_MIN_SECOND || second > MODEL_MAX_SECOND {
+            return Err(ERR);
         }
-        // u64::MAX * 10^9 + 999_999_999 < 2^94: exact in i128. `wrapping_mul` only to keep Kani from emitting an i128
-        // multiplication-overflow check (a 256-bit multiplier for CBMC); it cannot wrap.
-        let v = (s as i128).wrapping_mul(1_000_000_000) + n as i128;
-        MEMO = (s, n, v);
-        v
+        if nanosecond <= -NANOS_PER_SEC || nanosecond >= NANOS_PER_SEC {
+            return Err(ERR);
+        }
+        if second == MODEL_MIN_SECOND && nanosecond < 0 {
+            return Err(ERR);
+        }
+        // mixed signs are normalised by jiff to the same instant second * 10^9 + nanosecond (always in range here)
+        Ok(Timestamp { ns: (second as i128).wrapping_mul(1_000_000_000) + nanosecond as i128 })
+    }
+    pub fn constant(second: i64, nanosecond: i32) -> Timestamp {
+        match Timestamp::new(second, nanosecond) {
+            Ok(t) => t,
+            Err(_) => panic!("[model] jiff contract boundary: Timestamp::constant out of range"),
+        }
+    }
+    pub fn from_second(second: i64) -> Result<Timestamp, Error> {
+        if second < MODEL_MIN_SECOND || second > MODEL_MAX_SECOND {
+            return Err(ERR);
+        }
+        Ok(Timestamp { ns: (second as i128).wrapping_mul(1_000_000_000) })
+    }
+    pub fn from_millisecond(millisecond: i64) -> Result<Timestamp, Error> {
+        Timestamp::from_nanos_result((millisecond as i128).wrapping_mul(1_000_000))
+    }
+    pub fn from_microsecond(microsecond: i64) -> Result<Timestamp, Error> {
+        Timestamp::from_nanos_result((microsecond as i128).wrapping_mul(1_000))
+    }
+    pub fn from_nanosecond(nanosecond: i128) -> Result<Timestamp, Error> {
+        Timestamp::from_nanos_result(nanosecond)
+    }
+    pub fn from_duration(duration: SignedDuration) -> Result<Timestamp, Error> {
+        Timestamp::from_nanos_result(signed_nanos(duration))
+    }
+
+    // ---- accessors (truncation towards zero; fractional parts carry the sign of the timestamp)
+    pub fn as_second(self) -> i64 {
+        (self.ns / 1_000_000_000) as i64
+    }
+    pub fn as_millisecond(self) -> i64 {
+        (self.ns / 1_000_000) as i64
+    }
+    pub fn as_microsecond(self) -> i64 {
+        (self.ns / 1_000) as i64
+    }
+    pub fn as_nanosecond(self) -> i128 {
+        self.ns
+    }
+    pub fn subsec_nanosecond(self) -> i32 {
+        (self.ns % 1_000_000_000) as i32
+    }
+    pub fn subsec_microsecond(self) -> i32 {
+        ((self.ns % 1_000_000_000) / 1_000) as i32
+    }
+    pub fn subsec_millisecond(self) -> i32 {
+        ((self.ns % 1_000_000_000) / 1_000_000) as i32
+    }
+    pub fn as_duration(self) -> SignedDuration {
+        SignedDuration::from_small_nanos(self.ns)
+    }
+    pub fn signum(self) -> i8 {
+        if self.ns > 0 {
+            1
+        } else if self.ns < 0 {
+            -1
+        } else {
+            0
+        }
+    }
+    pub fn is_zero(self) -> bool {
+        self.ns == 0
+    }
+
+    // ---- arithmetic: exact; Err / saturation exactly where the exact result leaves the range
+    pub fn checked_add<A: Into<TimestampArithmetic>>(self, duration: A) -> Result<Timestamp, Error> {
+        let d: TimestampArithmetic = duration.into();
+        Timestamp::from_nanos_result(self.ns + d.ns)
+    }
+    pub fn checked_sub<A: Into<TimestampArithmetic>>(self, duration: A) -> Result<Timestamp, Error> {
+        let d: TimestampArithmetic = duration.into();
+        Timestamp::from_nanos_result(self.ns - d.ns)
+    }
+    /// `Result` as in jiff 0.2 (the error is for `Span`s with calendar units, which are not modelled): always `Ok`
+    pub fn saturating_add<A: Into<TimestampArithmetic>>(self, duration: A) -> Result<Timestamp, Error> {
+        let d: TimestampArithmetic = duration.into();
+        Ok(Timestamp::clamp_nanos(self.ns + d.ns))
+    }
+    pub fn saturating_sub<A: Into<TimestampArithmetic>>(self, duration: A) -> Result<Timestamp, Error> {
+        let d: TimestampArithmetic = duration.into();
+        Ok(Timestamp::clamp_nanos(self.ns - d.ns))
+    }
+    fn clamp_nanos(ns: i128) -> Timestamp {
+        if ns < MODEL_MIN_NANOS {
+            Timestamp::MIN
+        } else if ns > MODEL_MAX_NANOS {
+            Timestamp::MAX
+        } else {
+            Timestamp { ns }
+        }
+    }
+    /// `self - other`
+    pub fn duration_since(self, other: Timestamp) -> SignedDuration {
+        SignedDuration::from_small_nanos(self.ns - other.ns)
+    }
+    /// `other - self`
+    pub fn duration_until(self, other: Timestamp) -> SignedDuration {
+        SignedDuration::from_small_nanos(other.ns - self.ns)
     }
 }
 
@@ -157,35 +563,67 @@ impl Ord for Timestamp {
 }
 
 /// exact; panics (like the real crate) when the exact result is not a `Timestamp`
-impl core::ops::Add<core::time::Duration> for Timestamp {
+impl core::ops::Add<UnsignedDuration> for Timestamp {
     type Output = Timestamp;
     #[inline]
-    fn add(self, rhs: core::time::Duration) -> Timestamp {
+    fn add(self, rhs: UnsignedDuration) -> Timestamp {
         match Timestamp::model_from_nanos(self.ns + duration_nanos(rhs)) {
             Some(t) => t,
             None => panic!("[model] jiff contract boundary: adding unsigned duration to timestamp overflowed"),
         }
     }
 }
-impl core::ops::Sub<core::time::Duration> for Timestamp {
+impl core::ops::Sub<UnsignedDuration> for Timestamp {
     type Output = Timestamp;
     #[inline]
-    fn sub(self, rhs: core::time::Duration) -> Timestamp {
+    fn sub(self, rhs: UnsignedDuration) -> Timestamp {
         match Timestamp::model_from_nanos(self.ns - duration_nanos(rhs)) {
             Some(t) => t,
             None => panic!("[model] jiff contract boundary: subtracting unsigned duration from timestamp overflowed"),
         }
     }
 }
-impl core::ops::AddAssign<core::time::Duration> for Timestamp {
+impl core::ops::Add<SignedDuration> for Timestamp {
+    type Output = Timestamp;
     #[inline]
-    fn add_assign(&mut self, rhs: core::time::Duration) {
+    fn add(self, rhs: SignedDuration) -> Timestamp {
+        match Timestamp::model_from_nanos(self.ns + signed_nanos(rhs)) {
+            Some(t) => t,
+            None => panic!("[model] jiff contract boundary: adding signed duration to timestamp overflowed"),
+        }
+    }
+}
+impl core::ops::Sub<SignedDuration> for Timestamp {
+    type Output = Timestamp;
+    #[inline]
+    fn sub(self, rhs: SignedDuration) -> Timestamp {
+        match Timestamp::model_from_nanos(self.ns - signed_nanos(rhs)) {
+            Some(t) => t,
+            None => panic!("[model] jiff contract boundary: subtracting signed duration from timestamp overflowed"),
+        }
+    }
+}
+impl core::ops::AddAssign<UnsignedDuration> for Timestamp {
+    #[inline]
+    fn add_assign(&mut self, rhs: UnsignedDuration) {
         *self = *self + rhs
     }
 }
-impl core::ops::SubAssign<core::time::Duration> for Timestamp {
+impl core::ops::SubAssign<UnsignedDuration> for Timestamp {
     #[inline]
-    fn sub_assign(&mut self, rhs: core::time::Duration) {
+    fn sub_assign(&mut self, rhs: UnsignedDuration) {
+        *self = *self - rhs
+    }
+}
+impl core::ops::AddAssign<SignedDuration> for Timestamp {
+    #[inline]
+    fn add_assign(&mut self, rhs: SignedDuration) {
+        *self = *self + rhs
+    }
+}
+impl core::ops::SubAssign<SignedDuration> for Timestamp {
+    #[inline]
+    fn sub_assign(&mut self, rhs: SignedDuration) {
         *self = *self - rhs
     }
 }
